@@ -51,7 +51,8 @@ def main(argv=None):
             else:
                 n = eng.check.RUNS[a.tier]
                 if a.tier == "thorough":
-                    eng.search_for(budget or eng.check.RUNS.get("thorough_s", 300), n)
+                    # rounds of quick-tier size, so that the wall budget is honoured to within one round
+                    eng.search_for(budget or eng.check.RUNS.get("thorough_s", 300), eng.check.RUNS["quick"], max_runs=None)
                 else:
                     eng.search(n)
                 rc = eng.finish()
